@@ -405,5 +405,7 @@ pub fn run(p: &Params) -> Run {
     // the whole program in follow mode: raw texts, a real growing file, every output format (Props/PipelineFollow.lean)
     let mut frng = Rng::new(p.seed ^ 0xC19e2ef);
     for focus in &["limit", "group"] { crate::e2ef::stream(&mut run, &mut frng, p.n(100, 2000), focus); }
+    // the program itself: SIGINT while `--follow` waits on an idle file
+    crate::cli::interrupt_stream(&mut run, &mut Rng::new(p.seed ^ 0x19c1), p.n(6, 60));
     run
 }
